@@ -83,6 +83,21 @@ CLAIMS = {
         design_ref="DESIGN.md §3 C19",
         note="Bounded completion time over all schedules is not decided. Trusted base as C17.",
         technique="static analysis: guard must-pass-through, loop progress witnesses, value-origin shapes over rustc MIR"),
+    'C09': dict(
+        text="Datagram sockets dequeue only through dequeue_with and return emit's result from the closure (a failed emit keeps the datagram); process only behind accepts; first matching UDP socket only; Truncated guard dominates the copy; metadata from the packet's own addresses; PacketBuffer sibling/reset/declined-dequeue rules (R14.x); fragmenter never overwritten while busy (R12.1); of_packet total.",
+        design_ref="DESIGN.md §3 C09",
+        note="Exactly-once / FIFO behaviour over all operation sequences is not decided. Trusted base as C17.",
+        technique="static analysis: who-may-call, value-origin of closure results, guard must-pass-through over rustc MIR"),
+    'C10': dict(
+        text="Frame length = buffer_len of the emitted reprs; unfragmented transmit only behind total <= ip_mtu(); fragmentation-buffer admission uses the full length and is strict; fragment size aligned (R12.2); reply source = received destination only behind the unicast guards (incl. subnet broadcast); TCP option area always filled; checksums written last (R08.1); ICMP/RST suppression (R11.4).",
+        design_ref="DESIGN.md §3 C10",
+        note="Field-level well-formedness of every emitted frame in every scenario is not decided. Trusted base as C17.",
+        technique="static analysis: value-origin rules and guard must-pass-through over rustc MIR"),
+    'C03': dict(
+        text="Structural contributors to panic/hang freedom on the ingress path: empty-frame guard; no unwrap of a wire parse result in any iface body reachable from socket_ingress (call-graph audit); frame-derived subtractions in the 6LoWPAN ingress code are dominated by a >= guard; every checked-view accessor stays inside check_len's guarantee (R07.1), parser loops have progress witnesses (R07.5, R19.3), SACK stride (R07.7); destination filters (R11.1); reassembly delivery guards (R12.4).",
+        design_ref="DESIGN.md §3 C03",
+        note="General absence of index/overflow panics and termination of the whole ingress path is NOT decided (needs a relational numeric analysis); only the listed contributors are. Trusted base as C17.",
+        technique="static analysis: call-graph audit, guard must-pass-through, interval comparison against check_len, loop progress witnesses over rustc MIR"),
 }
 
 NOT_YET = "structural rules for this property are not built yet in this revision; no static claim is made"
